@@ -30,14 +30,16 @@ MANDATORY = ['filtered:empty', 'filtered:whitespace', 'filtered:round', 'filtere
              'kept:half-bracketed', 'kept:mixed-brackets', 'items-interleaved', 'post-merge:StorySend', 'pristine']
 
 
-def check(ro):
+def check(ro, base='roCreate'):
     fails = []
     # the document as an independent parser reads it (not the library's own tree: a tree built with
     # other parser options - comments kept, say - would otherwise be its own oracle)
-    rc = ET.fromstring(str(ro)).find('roCreate')
+    rc = ET.fromstring(str(ro)).find(base)
     xs = [c for c in rc if c.tag == 'story']
 
     def mism(what, exp, got):
+        if base != 'roCreate':
+            what = 'roReplace-object|' + what
         fails.append(Failure(PROP, f'C17|{what}|unfaithful', f'{what}: library {got!r}, XML says {exp!r}', exp, got))
     ok, stories = call(ro, 'stories', fails, PROP, 'RunningOrder')
     if not ok or len(stories) != len(xs):
@@ -182,6 +184,9 @@ def judge(ev):
         fails += check_kept(ev.obs.ro)
     if ev.obs.msg is not None:
         fails += check_message_stories(ev.obs.msg)
+        if type(ev.obs.msg).__name__ == 'RunningOrderReplace':
+            # a RunningOrderReplace is a RunningOrder: its own script / body list its own stories
+            fails += check(ev.obs.msg, base='roReplace')
     return fails
 
 
